@@ -57,6 +57,11 @@ def failing_W1():
         R("P", 0, "Q", ["A01"], 7.5),
         R("T", 0, "Q", ["A01"], 7.5, liquid_class="x;y"),
         R("T", 0, "Q", ["A01"], 7.5, src_rack_id="i" * 40),
+        # volumes in small unsigned integer dtypes (a negated uint8 wraps around)
+        A("P", ["A01"], {"$npa": ["uint8", [95]]}),
+        A("P", ["A01", "B01"], {"$npa": ["uint8", [30, 200]]}),
+        T("P", ["A01"], "Q", ["A01"], {"$npa": ["uint8", [95]]}),
+        A("T", ["A01"], {"$nps": ["uint16", 490]}),
     ]
     return ev
 
@@ -88,6 +93,11 @@ def failing_W3():
         R("T", 0, "Q", ["A01", "B01", "A02", "B02", "C02"], 30),
         R("T", 0, "P", ["A01", "B01"], 30, multi_disp=3),
         R("T", 0, "Q", ["B02"], 70),
+        # repeated destinations whose number equals the number of skipped positions: the skipped well (C01, nearly
+        # full) is not a destination
+        R("T", 0, "Q", ["A01", "A01", "B01", "A02"], 7.5),
+        R("T", 1, "Q", ["B01", "B01", "B02"], 2.5),
+        A("P", ["A01"], {"$npa": ["uint8", [85]]}),
     ]
     return ev
 
